@@ -436,7 +436,10 @@ namespace Pistache::Http
             // This is the first time we are reading the payload
             else
             {
-                message->body_.reserve(contentLength);
+                // contentLength comes from the wire: never reserve more than
+                // what has actually been received
+                message->body_.reserve(
+                    std::min<size_t>(contentLength, cursor.remaining()));
                 if (!readBody(contentLength))
                     return State::Again;
             }
@@ -480,9 +483,11 @@ namespace Pistache::Http
             if (size == 0)
                 return Final;
 
-            message->body_.reserve(size);
             StreamCursor::Token chunkData(cursor);
             const ssize_t available = cursor.remaining();
+            // size comes from the wire: never reserve more than what has
+            // actually been received
+            message->body_.reserve(message->body_.size() + static_cast<size_t>(std::min(size, available)));
             // data bytes of this chunk that have not been copied yet
             const ssize_t remainingData = size - alreadyAppendedChunkBytes;
 
